@@ -166,6 +166,16 @@ impl FileDesc {
                 )));
             }
 
+            // FEC Encoding ID 129: the same two values are 16-bit fields
+            if oti.fec_encoding_id == oti::FECEncodingID::ReedSolomonGF28UnderSpecified
+                && oti.maximum_source_block_length as u64 + oti.max_number_of_parity_symbols as u64 > 0xFFFF
+            {
+                return Err(FluteError::new(format!(
+                    "Maximum source block length of {} with {} parity symbols do not fit the 16-bit fields of the FEC OTI of Reed Solomon GF(2^8) Under Specified",
+                    oti.maximum_source_block_length, oti.max_number_of_parity_symbols
+                )));
+            }
+
             // GF(2^8): a block (source symbols + parity symbols) cannot have more than 255 symbols (n <= 2^m - 1)
             let (a_large, _, _, _) = partition::block_partitioning(
                 oti.maximum_source_block_length as u64,
